@@ -607,6 +607,8 @@ def enumerate_specs(quick):
 
 
 def run(ctx):
+    from . import _large
+    _large.c20(ctx)           # lengths on both sides of 2**8, 2**12, 2**16 (see _large.py)
     specs = list(enumerate(enumerate_specs(ctx.quick)))
     nblk = 64 if ctx.quick else 160
     blocks = [specs[i::nblk] for i in range(nblk)]
@@ -656,6 +658,20 @@ def run(ctx):
 
 
 def replay(detail):
+    if detail.get("large"):
+        from . import _large
+
+        class _C(object):
+            n = 0
+
+            def count(self, *a):
+                pass
+
+            def violation(self, sig, d):
+                _C.n += 1
+                print("VIOLATED", sig, d)
+        _large.c20(_C())
+        return 1 if _C.n else 0
     import cffi
     spec = detail["spec"]
     spec = (spec[0], tuple(spec[1]), spec[2])
